@@ -9,6 +9,7 @@ package doccomposer
 import (
 	"encoding/json"
 	"fmt"
+	"strings"
 
 	jsonpatch "github.com/evanphx/json-patch"
 
@@ -108,12 +109,40 @@ func applyJSON(doc document.Document, entry interface{}) (result document.Docume
 		return nil, err
 	}
 
-	docBytes, err = jsonPatches.Apply(docBytes)
-	if err != nil {
-		return nil, err
+	// The JSON patch library shares (does not copy) the value of a 'copy' operation, so a value copied into
+	// itself - directly, or through an earlier operation of the same list - forms a cycle that overflows the
+	// stack when the document is serialized. Reject the direct case and apply the operations one at a time
+	// (each to the serialized result of the previous one, as RFC 6902 specifies) so that nothing stays shared.
+	for i := range jsonPatches {
+		if err := checkCopyIntoItself(jsonPatches[i]); err != nil {
+			return nil, err
+		}
+
+		docBytes, err = jsonPatches[i : i+1].Apply(docBytes)
+		if err != nil {
+			return nil, err
+		}
 	}
 
 	return document.FromBytes(docBytes)
+}
+
+func checkCopyIntoItself(op map[string]*json.RawMessage) error {
+	var kind, from, path string
+
+	for key, target := range map[string]*string{"op": &kind, "from": &from, "path": &path} {
+		if raw, ok := op[key]; ok && raw != nil {
+			if err := json.Unmarshal(*raw, target); err != nil {
+				return fmt.Errorf("invalid JSON patch operation member '%s'", key)
+			}
+		}
+	}
+
+	if (kind == "copy" || kind == "move") && (path == from || strings.HasPrefix(path, from+"/")) {
+		return fmt.Errorf("JSON patch %s: path '%s' is inside from '%s'", kind, path, from)
+	}
+
+	return nil
 }
 
 func applyRecover(replaceDoc interface{}) (document.Document, error) {
